@@ -11,7 +11,8 @@ TOKENS = [b'$', b'@', b'.', b'..', b'*', b'[', b']', b'(', b')', b'?(', b'[?(', 
           b'0', b'1', b'-1', b'+2', b'007', b':', b'::', b',', b' ', b'==', b'!=', b'<', b'<=', b'>', b'>=', b'=~',
           b'/a/', b'/[/', b'&&', b'||', b'!', b'true', b'false', b'null', b'1.5', b'1e3', b'1e', b'-', b'+', b"'x'",
           b'"y"', b'.twice()', b'.cnt()', b'.nofn()', b'()', b'\\', b"\\'", b'9223372036854775807',
-          b'9223372036854775808', b'-9223372036854775808', b'99999999999999999999', b'(1+1)', b'[(', b'(@.a)',
+          b'9223372036854775808', b'-9223372036854775808', b'99999999999999999999', b'(1+1)', b'[(', b'(@.a)', b'[(@.length)]', b'[(@.length-1)]', b'(@.length)', b'[( @.length )]',
+          b'[(@.length-)]', b'[(@)]', b'[()]', b'[(command)]', b'[(@.length+1)]', b'[(@.lengthy)]',
           b'\xe3\x81\x82', b'\xf0\x9f\x98\x80', b'\xc3\xa9', b'\t', b'\n', b'1e999', b'0x10', b'.5', b'1.', b'NULL', b'True']
 MUT_CHARS = [b'$', b'@', b'.', b'*', b'[', b']', b'(', b')', b'?', b"'", b'"', b'\\', b':', b',', b' ', b'=', b'!', b'<',
              b'>', b'~', b'/', b'&', b'|', b'-', b'+', b'0', b'9', b'a', b'e', b'\xe3\x81\x82', b'\xf0\x9f\x98\x80',
@@ -120,7 +121,7 @@ OPERANDS = [b'1', b"'a'", b'true', b'null', b'@', b'@.a', b'@[0]', b'$', b'$.a',
 OPS = [b'==', b'!=', b'<', b'<=', b'>', b'>=']
 STEPS = [b'.a', b"['a']", b'["a"]', b'.*', b'[*]', b"['a','b']", b'[*,*]', b'[0]', b'[-1]', b'[0,1]', b'[1:]', b'[::2]',
          b'[::-1]', b'[:0:0]', b'..a', b'..*', b'..[0]', b"..['a','b']", b'[?(@.a)]', b'[?(@.a==1)]', b'.twice()',
-         b'.cnt()', b'[(1)]', b'..[?(@)]']
+         b'.cnt()', b'[(1)]', b'..[?(@)]', b'[(@.length)]', b'[(@.length-1)]', b'..[(@.length)]', b'[(@)]']
 
 
 def exhaustive_comparisons():
